@@ -1,5 +1,6 @@
 import Driver.Util
 import CRModel.CRXml
+import CRModel.DecVal
 open Lean CR.Drv CR.X
 
 namespace CR.Drv.C01
@@ -90,6 +91,9 @@ def handleFile (op : String) (a : Json) : P Json := do
   | _ => throw s!"C01: unknown op {op}"
 
 def handle (op : String) (a : Json) : P Json := do
+  if op == "real_val" then
+    let ss ← getList asStr a "ss"
+    return Json.arr (ss.map (fun s => ratJ (realVal s))).toArray
   if op.endsWith "_file" then return (← handleFile op a)
   let cfg : Cfg ← parse (← field a "cfg") "cfg"
   match op with
